@@ -40,6 +40,9 @@ def build_cases(ctx, nested=0.0, nschema=None, per=None, big=False, gen_kw=None,
             flags, ident, ba = configs(r, ctx.quick())
             if root[0] == "st" and r.random() < 0.5: flags |= 4
             toks = " ".join(vtree.render(tree))
+            # the harness reads at most 65536 tokens per line (and the list-based model is slow on such trees): long vectors times deep
+            # nesting can exceed that; such a tree is dropped, not truncated
+            if toks.count(" ") > 40000: continue
             # children of the root table created before the top-level buffer is started (allowed at the top level only:
             # nothing that is or contains a nested buffer; creation order is the same as in the create style, so back references keep their numbers)
             if root[0] == "t" and not (set(toks.split(" ")) & {"B", "E"}) and r.random() < 0.25: flags |= 8
@@ -101,6 +104,24 @@ def check_buffer(c, out):
     return None
 
 
+def short_nested_struct(c):
+    """known finding nested-struct-root-below-header-size: the builder emits a nested buffer with a struct root of fewer than 4 bytes (no
+    identifier, no size prefix) as 4 + size < 8 bytes, and the verifier demands 8 bytes of every buffer header (`check_header`: room for an
+    identifier `the user might ask for later`): the nested buffer, and with it the parent, is rejected"""
+    return any(root[0] == "st" and len(nb) < 8 and not ws for (root, nb, ws) in c.get("nested_found", []))
+
+
+def short_nested_case():
+    """the recorded finding, deterministically: a one-byte struct (union member) stored first leaves the front at an address that is 3 mod 4; the
+    nested buffer with a 3-byte struct root created next needs no padding in front of its header and is 4 + 3 = 7 bytes long"""
+    uns = [[dict(code=1, kind="st", a=1, b=1)]]
+    tabs = [[fbenc.fld(1, 0, "u", 0), fbenc.fld(2, 0, "ns", 3, 1)]]
+    N = vtree.Node
+    tree = N("T", ti=0, fields=[(tabs[0][0], N("U", type=1, value=N("u", align=1, data=b"\x09"), member=uns[0][0])),
+                                (tabs[0][1], N("B", ident=None, with_size=0, block_align=0, root=N("u", align=1, data=b"\x01\x02\x03")))])
+    return dict(tables=tabs, unions=uns, root=("t", 0), tree=tree, flags=0, ident="-", ba=0, toks=" ".join(vtree.render(tree)), si=-7, fresh=False)
+
+
 def rootname(root):
     return "t%d" % root[1] if root[0] == "t" else "st:%d:%d" % (root[1], root[2])
 
@@ -130,7 +151,7 @@ def run(ctx):
     rt = build_runtime_objs(ctx)
     h_build = build_harness(ctx, "h_build", [os.path.join(VERIF, "harness/h_build.c")], rt)
     h_verify = build_harness(ctx, "h_verify", [os.path.join(VERIF, "harness/h_verify.c")], rt, incs=[gen_dir])
-    cases = build_cases(ctx, nested=0.25, big=not ctx.quick())
+    cases = build_cases(ctx, nested=0.25, big=not ctx.quick()) + [short_nested_case()]
     c_out, m_out, err = run_builds(ctx, h_build, cases)
     corr, spec = [], []
     for ci, c in enumerate(cases):
@@ -176,12 +197,20 @@ def run(ctx):
     vown = [x for o in owner for x in o]
     out_v = ["reject" if o.startswith("reject") else o for o in out_v]
     idx, va, vb = diff_streams(vlines, out_v, out_w)
+    short_hits = []
     for i, (l, o) in enumerate(zip(vlines, va)):
         if not l.startswith("verify"): continue
         if not o.startswith("ok"):
             sch = next(x for x in reversed(vlines[:i + 1]) if x.startswith("schema"))
-            spec.append((vown[i], "verify", ("the verifier rejects a buffer the builder finished" if vown[i] != "enc" else
-                         "the verifier rejects a conforming buffer from the independent encoder") + ": " + o[:80] + " | " + sch + " | " + l[:2000]))
+            e = (vown[i], "verify", ("the verifier rejects a buffer the builder finished" if vown[i] != "enc" else
+                 "the verifier rejects a conforming buffer from the independent encoder") + ": " + o[:80] + " | " + sch + " | " + l[:2000])
+            if vown[i] != "enc" and short_nested_struct(cases[vown[i]]): short_hits.append(e)
+            else: spec.append(e)
+    if short_hits:
+        if any(f["property"] == "C02" and f["id"] == "nested-struct-root-below-header-size-c02" and f["status"] == "known" for f in load_known()):
+            known_finding(ctx, "nested-struct-root-below-header-size-c02", "a nested buffer with a struct root shorter than 4 bytes finished as 4 + size < 8 bytes is rejected by "
+                          "the verifier as a buffer (header too small): %d verify lines this run, e.g. %s" % (len(short_hits), short_hits[0][2][-50:]))
+        else: spec += short_hits
     if spec:
         ci, st, why = min(spec, key=lambda t: len(cases[t[0]]["toks"]) if t[0] != "enc" else 10**6)
         c = cases[ci] if ci != "enc" else None
